@@ -722,3 +722,48 @@ Proof.
   unfold read_body_lim. replace (content_length _) with 2000000000 by (vm_compute; reflexivity).
   cbn [Z.leb Z.compare Z.ltb zlen length Z.of_nat]. discriminate.
 Qed.
+
+(* ---------- statements as used in Properties/C14.v ---------- *)
+Lemma read_all_final url kind cfg f : forall s, (length s < f)%nat ->
+  match snd (read_all (stepper url kind cfg) f s) with FDone | FErr _ => True | FPanic | FFuel => False end.
+Proof.
+  induction f as [|f IH]; intros s F; [lia|]. cbn [read_all]. destruct s as [|c s]; [exact I|].
+  pose proof (stepper_total url kind cfg (c :: s)) as T.
+  destruct (stepper url kind cfg (c :: s)) as [ev rest|e|] eqn:E; [|exact I|congruence].
+  apply stepper_ok in E. specialize (IH rest ltac:(lia)).
+  destruct (read_all (stepper url kind cfg) f rest) as [evs fin]. exact IH.
+Qed.
+
+Theorem reader_total url cfg s :
+  read_request url s <> Panic /\ read_response s <> Panic /\ read_packet cfg s <> Panic /\
+  receive url cfg s <> Panic /\
+  forall kind, match snd (read_stream (stepper url kind cfg) s) with
+               | FDone | FErr _ => True | FPanic | FFuel => False end.
+Proof.
+  split; [apply read_request_total|]. split; [apply read_response_total|]. split; [apply read_packet_total|].
+  split; [apply receive_total|]. intros kind. apply read_all_final. lia.
+Qed.
+
+Theorem reader_bounded :
+  (* a line is never assembled beyond the limit, and rejection needs max_line + 2 bytes only *)
+  (forall s l rest, read_line s = Ok l rest -> zlen l <= max_line) /\
+  (forall p t, ~ In LF p -> max_line + 2 <= zlen p -> read_line (p ++ t) = Err ELineTooLong) /\
+  (* a body is never allocated beyond the limit, and rejection needs no byte of it *)
+  (forall h s body rest, read_body h s = Ok body rest -> zlen body <= max_body) /\
+  (forall h s, max_body < content_length h -> read_body h s = Err EBodyTooBig) /\
+  (* what a parsed message holds *)
+  (forall url s q rest, read_request url s = Ok q rest ->
+     request_size q <= max_line * (hcount (q_hdr q) + 1) + max_body) /\
+  (forall s p rest, read_response s = Ok p rest ->
+     response_size p <= max_line * (hcount (p_hdr p) + 1) + max_body).
+Proof.
+  split; [intros s l rest H; apply read_line_ok in H; tauto|].
+  split; [exact line_too_long|].
+  split; [intros h s body rest H; apply read_body_ok in H; tauto|].
+  split; [exact body_too_big|].
+  split; [exact request_bounded|exact response_bounded].
+Qed.
+
+(* the header fuel is never the reason for an error *)
+Theorem read_header_no_fuel s : read_header s <> Err EFuel.
+Proof. unfold read_header. apply read_header_f_fuel. lia. Qed.
